@@ -566,3 +566,271 @@ def parse_shape(toks):
     except ValueError:
         return None
     return e if p.i == len(toks) else None
+
+
+# ---------------------------------------------------------------------------------------------
+# evaluated fragment: type-directed generator.  A term is [type, format, child...]; type in ns/num/int/str/bool/pred/step
+
+AXES = ["child", "descendant", "descendant-or-self", "parent", "ancestor", "ancestor-or-self", "following",
+        "following-sibling", "preceding", "preceding-sibling", "self", "attribute"]
+REVERSE_AXES = ("ancestor", "ancestor-or-self", "preceding", "preceding-sibling")
+
+
+def T(ty, fmt, *kids):
+    return [ty, fmt] + list(kids)
+
+
+def rnd(t):
+    return t[1].format(*[rnd(k) for k in t[2:]])
+
+
+def g_test(r, axis):
+    if axis == "attribute":
+        return r.weighted([("*", 3), ("p", 2), ("q", 1), ("id", 1)])   # attribute::node(): see finding C02-attribute-node-test
+    return r.weighted([("*", 4), ("a", 3), ("b", 2), ("c", 1), ("node()", 3), ("text()", 2), ("comment()", 1),
+                       ("processing-instruction()", 1), ("processing-instruction('t')", 1)])
+
+
+def g_step(r, depth, in_pred):
+    k = r.weighted([("axis", 10), ("abbr", 6), (".", 1), ("..", 2)])
+    if k == ".":
+        return T("step", ".")
+    if k == "..":
+        return T("step", "..")
+    if k == "abbr":
+        if r.chance(1, 4):
+            base = "@" + g_test(r, "attribute")
+        else:
+            base = g_test(r, "child")
+    else:
+        ax = r.choice(AXES)
+        base = ax + "::" + g_test(r, ax)
+    npred = r.weighted([(0, 5), (1, 4), (2, 3), (3, 1)]) if depth > 0 else 0
+    preds = [g_pred(r, depth - 1) for _ in range(npred)]
+    return T("step", base + "".join("[{%d}]" % i for i in range(npred)), *preds)
+
+
+def g_ns(r, depth, in_pred=False):
+    k = r.weighted([("path", 12), ("union", 2 if depth > 0 else 0), ("filter", 3 if depth > 0 else 0), ("var", 2)])
+    if k == "var":
+        return T("ns", "$" + r.choice(["na", "nb", "nz"]))
+    if k == "union":
+        return T("ns", "{0} | {1}", g_ns(r, depth - 1, in_pred), g_ns(r, depth - 1, in_pred))
+    if k == "filter":
+        inner = g_ns(r, depth - 1, in_pred)
+        npred = r.range(0, 2)
+        preds = [g_pred(r, depth - 1) for _ in range(npred)]
+        nsteps = r.range(0 if npred else 1, 2)
+        steps = [g_step(r, depth - 1, in_pred) for _ in range(nsteps)]
+        fmt = "({0})" + "".join("[{%d}]" % (1 + i) for i in range(npred)) + "".join(r.choice(["/", "/", "//"]) + "{%d}" % (1 + npred + i) for i in range(nsteps))
+        return T("ns", fmt, inner, *(preds + steps))
+    lead = r.weighted([("", 5), ("/", 3), ("//", 3)])
+    nsteps = r.range(1, 3)
+    steps = [g_step(r, depth, in_pred) for _ in range(nsteps)]
+    fmt = lead + "{0}" + "".join(r.choice(["/", "/", "/", "//"]) + "{%d}" % i for i in range(1, nsteps))
+    return T("ns", fmt, *steps)
+
+
+def g_int(r, depth, in_pred):
+    k = r.weighted([("lit", 4), ("count", 3), ("pos", 4 if in_pred else 0), ("last", 3 if in_pred else 0),
+                    ("strlen", 1), ("arith", 3 if depth > 0 else 0)])
+    if k == "lit":
+        return T("int", r.choice(["0", "1", "2", "3", "4", "10"]))
+    if k == "count":
+        return T("int", "count({0})", g_ns(r, depth - 1, in_pred))
+    if k == "pos":
+        return T("int", "position()")
+    if k == "last":
+        return T("int", "last()")
+    if k == "strlen":
+        return T("int", "string-length({0})", g_str(r, depth - 1, in_pred)) if depth > 0 else T("int", "string-length()")
+    return T("int", "{0} " + r.choice(["+", "-", "*"]) + " {1}", g_int(r, depth - 1, in_pred), g_int(r, depth - 1, in_pred))
+
+
+def g_num(r, depth, in_pred):
+    k = r.weighted([("int", 6), ("lit", 3), ("sum", 2), ("number", 2), ("arith", 4 if depth > 0 else 0),
+                    ("neg", 1 if depth > 0 else 0), ("fn", 2 if depth > 0 else 0)])
+    if k == "int":
+        return g_int(r, depth, in_pred)
+    if k == "lit":
+        return T("num", r.choice(["1.5", "2.5", "0.5", ".25", "100", "7."]))
+    if k == "sum":
+        return T("num", "sum({0})", g_ns(r, depth - 1, in_pred))
+    if k == "number":
+        if r.chance(1, 4):
+            return T("num", "number()")
+        return T("num", "number({0})", g_ns(r, depth - 1, in_pred) if r.chance(1, 2) else g_str(r, depth - 1, in_pred))
+    if k == "neg":
+        return T("num", "-{0}", T("num", "({0})", g_num(r, depth - 1, in_pred)))
+    if k == "fn":
+        f = r.choice(["floor", "ceiling", "round"])
+        if f == "round":
+            return T("num", "round({0} div 2)", g_int(r, 0, in_pred) if not in_pred else T("int", "position()"))
+        return T("num", f + "({0})", g_num(r, depth - 1, in_pred))
+    op = r.choice(["+", "-", "*", "div", "mod"])
+    return T("num", "({0}) " + op + " ({1})", g_num(r, depth - 1, in_pred), g_num(r, depth - 1, in_pred))
+
+
+def g_str(r, depth, in_pred):
+    k = r.weighted([("lit", 4), ("string", 3), ("name", 2), ("fn", 4 if depth > 0 else 0)])
+    if k == "lit":
+        return T("str", r.choice(["'a'", "'b'", "'1'", "' 2 '", "''", "'x y'", "'abcde'", "'12345'", "'-1'"]))
+    if k == "string":
+        w = r.below(4)
+        if w == 0:
+            return T("str", "string()")
+        if w == 1:
+            return T("str", "string({0})", g_int(r, depth - 1, in_pred))
+        if w == 2:
+            return T("str", "string({0})", g_bool(r, depth - 1, in_pred)) if depth > 0 else T("str", "string(true())")
+        return T("str", "string({0})", g_ns(r, depth - 1, in_pred))
+    if k == "name":
+        f = r.choice(["name", "local-name"])
+        return T("str", f + "()") if r.chance(1, 3) else T("str", f + "({0})", g_ns(r, depth - 1, in_pred))
+    f = r.choice(["concat", "substring2", "substring3", "normalize-space", "translate"])
+    s1 = g_str(r, depth - 1, in_pred)
+    if f == "concat":
+        return T("str", "concat({0}, {1}, {2})", s1, g_str(r, depth - 1, in_pred), T("str", "string({0})", g_int(r, 0, in_pred)))
+    if f == "substring2":
+        return T("str", "substring({0}, {1})", s1, T("num", r.choice(["0", "1", "2", "1.5", "-1", "10", "0 div 0", "2.5"])))
+    if f == "substring3":
+        return T("str", "substring({0}, {1}, {2})", s1, T("num", r.choice(["0", "1", "2", "1.5", "-1", "0.5", "2.5"])),
+                 T("num", r.choice(["0", "1", "2", "2.6", "3", "100", "1 div 0", "0 div 0", "-1"])))
+    if f == "normalize-space":
+        return T("str", "normalize-space({0})", s1)
+    return T("str", "translate({0}, {1}, {2})", s1, T("str", r.choice(["'ab'", "'1 '", "'xyz'", "'aa'"])), T("str", r.choice(["'X'", "''", "'12'", "'yz'"])))
+
+
+def g_bool(r, depth, in_pred):
+    k = r.weighted([("cmp", 8), ("exists", 3), ("logic", 3 if depth > 0 else 0), ("strfn", 2), ("const", 1)])
+    if k == "const":
+        return T("bool", r.choice(["true()", "false()"]))
+    if k == "exists":
+        return T("bool", "boolean({0})", g_ns(r, depth - 1, in_pred))
+    if k == "strfn":
+        return T("bool", r.choice(["contains", "starts-with"]) + "({0}, {1})", g_str(r, depth - 1, in_pred), g_str(r, 0, in_pred))
+    if k == "logic":
+        w = r.below(3)
+        if w == 0:
+            return T("bool", "not({0})", g_bool(r, depth - 1, in_pred))
+        return T("bool", "({0}) " + ("and" if w == 1 else "or") + " ({1})", g_bool(r, depth - 1, in_pred), g_bool(r, depth - 1, in_pred))
+    op = r.choice(["=", "!=", "<", "<=", ">", ">="])
+
+    def any_val():
+        t = r.weighted([("ns", 4), ("num", 4), ("str", 3), ("bool", 1 if depth > 0 else 0)])
+        if t == "ns":
+            return g_ns(r, depth - 1, in_pred)
+        if t == "num":
+            return g_num(r, depth - 1, in_pred)
+        if t == "str":
+            return g_str(r, depth - 1, in_pred)
+        return g_bool(r, depth - 1, in_pred)
+    a, b = any_val(), any_val()
+    pa = "({0})" if a[0] in ("bool", "num", "int") else "{0}"
+    pb = "({1})" if b[0] in ("bool", "num", "int") else "{1}"
+    return T("bool", pa + " " + op + " " + pb, a, b)
+
+
+def g_pred(r, depth):
+    d = max(depth, 0)
+    k = r.weighted([("lit", 5), ("poscmp", 6), ("last", 3), ("num", 3), ("bool", 6), ("ns", 3)])
+    if k == "lit":
+        return T("pred", r.choice(["1", "2", "3", "1", "2", "0", "1.5", "4", "10"]))
+    if k == "poscmp":
+        return T("pred", "position() " + r.choice(["=", "!=", "<", "<=", ">", ">="]) + " " + r.choice(["1", "2", "3", "last()", "last() - 1"]))
+    if k == "last":
+        return T("pred", r.choice(["last()", "last() - 1", "position() = last()", "position() mod 2 = 1"]))
+    if k == "num":
+        return T("pred", "{0}", g_num(r, d, True))
+    if k == "ns":
+        return T("pred", "{0}", g_ns(r, d - 1 if d > 0 else 0, True))
+    return T("pred", "{0}", g_bool(r, d, True))
+
+
+def g_top(r, depth):
+    t = r.weighted([("ns", 8), ("num", 3), ("str", 3), ("bool", 4)])
+    return {"ns": g_ns, "num": g_num, "str": g_str, "bool": g_bool}[t](r, depth, False) if t != "ns" else g_ns(r, depth)
+
+
+def shrink_candidates(t):
+    """terms obtained by replacing one sub-term by one of its same-type proper sub-terms (or dropping to it at the top)"""
+    out = []
+
+    def descendants(x, ty):
+        res = []
+        for k in x[2:]:
+            if k[0] == ty or (ty == "num" and k[0] == "int"):
+                res.append(k)
+            res += descendants(k, ty)
+        return res
+
+    def go(x, rebuild):
+        for dsc in descendants(x, x[0]):
+            out.append(rebuild(dsc))
+        for i, k in enumerate(x[2:]):
+            go(k, lambda nk, i=i, x=x, rebuild=rebuild: rebuild(x[:2 + i] + [nk] + x[3 + i:]))
+    go(t, lambda y: y)
+    # any top-level typed sub-term as a new top
+    for ty in ("ns", "bool", "num", "str", "int"):
+        out += descendants(t, ty)
+    return out
+
+
+def uses_multi_position_pred(text):
+    """a step / filter with two adjacent predicates, an earlier one of which calls position()"""
+    import re as _re
+    return _re.search(r"\[[^\[\]]*position\(\)[^\[\]]*\]\s*\[", text) is not None or \
+        _re.search(r"\[[^\]]*position\(\).*\]\s*\[", text) is not None
+
+
+def gen_doc2(r, maxnodes=14):
+    """document with comments and processing instructions too"""
+    table = [("r", "", "", -1)]
+    budget = [r.range(3, maxnodes)]
+    texts = ["1", "2", "3", "10", "a", "b", " 2 ", "x", "2.5", "-1", "NaN", "07", "x y"]
+
+    def elem(parent, depth):
+        name = r.choice(DOCNAMES)
+        me = len(table)
+        table.append(("e", name, "", parent))
+        xml = "<" + name
+        used = set()
+        for _ in range(r.weighted([(0, 5), (1, 3), (2, 2)])):
+            an = r.choice(["p", "q", "id"])
+            if an in used:
+                continue
+            used.add(an)
+            av = r.choice(texts).strip() or "v"
+            table.append(("a", an, av, me))
+            xml += ' %s="%s"' % (an, av)
+        kids = ""
+        last_text = False
+        nk = r.range(0, 4) if depth < 3 else 0
+        for _ in range(nk):
+            if budget[0] <= 0:
+                break
+            budget[0] -= 1
+            w = r.weighted([("t", 4), ("e", 8), ("c", 1), ("p", 1)])
+            if w == "t" and not last_text:
+                t = r.choice(texts)
+                table.append(("t", "", t, me))
+                kids += t
+                last_text = True
+            elif w == "c":
+                table.append(("c", "", "note", me))
+                kids += "<!--note-->"
+                last_text = False
+            elif w == "p":
+                tg = r.choice(["t", "u"])
+                table.append(("p", tg, "d", me))
+                kids += "<?%s d?>" % tg
+                last_text = False
+            else:
+                kids += elem(me, depth + 1)
+                last_text = False
+        if kids:
+            return xml + ">" + kids + "</" + name + ">"
+        return xml + "/>"
+
+    xml = elem(0, 0)
+    return xml, table
